@@ -364,13 +364,48 @@ func checkRegistryCase(c registryCase) (rule, sig, msg string) {
 	} else {
 		p.req = proto
 	}
-	err := registry.New().Register(p)
+	reg := registry.New()
+	err := reg.Register(p)
 	want := looksSecret(c.Name) && c.Tag == ""
 	switch {
 	case want && err == nil:
 		return "secret-looking-field-accepted-without-tag", "nesting:" + nestClass(c.Nesting) + ":" + c.Top, fmt.Sprintf("%s: Register accepted the plugin (type %s)", c, t)
 	case !want && err != nil:
 		return "well-tagged-type-refused", "nesting:" + nestClass(c.Nesting) + ":" + c.Tag, fmt.Sprintf("%s: Register refused the plugin: %v", c, err)
+	}
+	// The verdict is a function of the type alone, not of what the registry has seen before: the same plugin again,
+	// another plugin whose type contains the same struct, and the same plugin after an unrelated refusal.
+	verdict := func(step string, err error) (string, string, string) {
+		switch {
+		case want && err == nil:
+			return "secret-looking-field-accepted-without-tag", "history:" + step, fmt.Sprintf("%s: %s: Register accepted the plugin", c, step)
+		case !want && err != nil:
+			return "well-tagged-type-refused", "history:" + step, fmt.Sprintf("%s: %s: Register refused the plugin: %v", c, step, err)
+		}
+		return "", "", ""
+	}
+	if want {
+		if r, s2, m := verdict("same plugin registered again after its refusal", reg.Register(p)); r != "" {
+			return r, s2, m
+		}
+	}
+	wrap := reflect.StructOf([]reflect.StructField{{Name: "Label", Type: reflect.TypeOf("")}, {Name: "Wrapped", Type: reflect.PointerTo(t)}})
+	q := &regPlug{simplePlug: simplePlug{name: "q"}, req: SReq{}, resp: SResp{}}
+	if c.InResp {
+		q.req = reflect.New(wrap).Elem().Interface() // the other side this time
+	} else {
+		q.resp = reflect.New(wrap).Elem().Interface()
+	}
+	if r, s2, m := verdict("another plugin whose type contains the same struct, same registry", reg.Register(q)); r != "" {
+		return r, s2, m
+	}
+	reg2 := registry.New()
+	bad := &regPlug{simplePlug: simplePlug{name: "bad"}, req: struct{ Password string }{}, resp: SResp{}}
+	if reg2.Register(bad) == nil {
+		return "secret-looking-field-accepted-without-tag", "history:control", "a plugin with an untagged Password field was accepted"
+	}
+	if r, s2, m := verdict("after an unrelated plugin was refused by the same registry", reg2.Register(p)); r != "" {
+		return r, s2, m
 	}
 	return "", "", ""
 }
@@ -472,7 +507,7 @@ func init() {
 		Level: "exploration",
 		Rule: "request/response TYPES are built at run time with reflect.StructOf/PointerTo/SliceOf/MapOf from the grammar T ::= string | struct{X T; Y T secure; Z string; W T ignore} | *T | []T | map[string]T | any(T) (an ignore-tagged container is walked like an untagged one): ALL shapes up to 3 (4) constructors deep below a top struct field, a unique canary string in every leaf " +
 			"(secret iff some enclosing field is tagged), handed over by value and by pointer, placed as sequence-action request, check-action request, attempt response of a sequence action and of a check action; surfaces: clone.Plan/Block/Checks/Sequence/Action (keep-state, default secrets), default clone.Plan, reports.Render (every file of the returned file system); " +
-			"oracle: byte search for every secret canary (must be absent) and every plain canary (must be present in clones), canonical dump of the original plan before/after; registry: secret-looking and harmless field names x {no tag, secure, ignore} x nesting through structs and pointers up to depth 3 x request/response x value/pointer/zero prototype; " +
+			"oracle: byte search for every secret canary (must be absent) and every plain canary (must be present in clones), canonical dump of the original plan before/after; registry: secret-looking and harmless field names x {no tag, secure, ignore} x nesting through structs and pointers up to depth 3 x request/response x value/pointer/zero prototype, each followed on the same registry by the same plugin again, by another plugin containing the same struct type and (fresh registry) preceded by an unrelated refusal; " +
 			"distinct_nontrivial = cases other than the flat string type",
 		Assumptions: []string{"Go arrays are excluded as documented", "the registry is only required to look through structs and pointers to structs"},
 		Items:       func(tier string) []WorkItem { return shardItems("C17", 16) },
